@@ -15,7 +15,7 @@ def run(chk):
     broken = chk.obligations(REGISTRY["C17"])
     runner.build_harness()
     rng = random.Random("C17-%d" % chk.seed)
-    n = 1200 if chk.tier == "quick" else 25000
+    n = chk.size(1200, 25000)
     texts, base, kinds = [], [], []
     for i in range(n):
         c, g = gen_check.valid_script(chk.seed + 1000, i, {"sendall_safe": 0.7})
